@@ -56,6 +56,8 @@ def gen_dep(rnd: Any, project_extras: list[str]) -> dict[str, Any]:
     d: dict[str, Any] = {"name": rnd.choice(NAMES) + str(rnd.randint(0, 9)), "version": ver}
     if rnd.random() < 0.5:
         d["python"] = c11_gen.py_range(rnd)
+        while parse_constraint(d["python"]).is_empty():      # an empty python range is not a satisfiable declaration
+            d["python"] = c11_gen.py_range(rnd)
     if rnd.random() < 0.3:
         d["platform"] = rnd.choice(PLATFORMS)
     if rnd.random() < 0.4:
